@@ -501,6 +501,10 @@ def exactsolve(A: LinearOperator, B: torch.Tensor,
     # M: (*BM, na, na)
     if E is None:
         Amatrix = A.fullmatrix()  # (*BA, na, na)
+        # give B as many dimensions as A, otherwise torch.linalg.solve takes B
+        # as a batch of vectors when B.shape == A.shape[:-1]
+        if B.ndim < Amatrix.ndim:
+            B = B.reshape(*([1] * (Amatrix.ndim - B.ndim)), *B.shape)
         x = torch.linalg.solve(Amatrix, B)  # (*BAB, na, ncols)
     elif M is None:
         Amatrix = A.fullmatrix()
